@@ -83,8 +83,11 @@ func C09(o *core.Options) int {
 	r := core.NewReport(o, "fault_enumeration",
 		"for every world (model family representatives without conditions x tuple subsets of size<=2) and every request pair <q1,q2> over Check (every node) and ListObjects: q1 runs on a server with the Check and ListObjects iterator caches and shared iterators on, with the request context CANCELLED at the k-th datastore operation (read call or iterator Next/Head) for EVERY k up to the number of operations the undisturbed q1 makes, and again with a non-cancellation ERROR injected at every k; the background drains are awaited; then every q2 runs undisturbed: its answer must be the reference answer or one the cache-less server gives (a partially read query result is never served as complete); non-trivial = (world,q1,k) triples whose fault was actually delivered")
 	r.Assume("memory datastore behind a fault-injecting wrapper (h/dsx); harness-owned map cache (h/cachex) stands in for theine and is reset between (q1,k) runs; store contents fixed",
-		"interleavings of the background drain with a concurrent second reader are explored under the scheduler in C23 (shared iterator); here drains are awaited before q2")
+		"server-level runs use one Go-scheduler interleaving per run and await the drains before q2; the schedule-quantified part (cachedIterator Next/Stop/flush, background drain, singleflight, findInCache/isInvalidAt under every interleaving) is decided by the instrumented sub-harness citer (coverage.cached_iterator_interleavings); shared iterators under the scheduler: C23")
 	if o.Replay != "" {
+		if isCiter, code := c09ReplayCiter(o); isCiter {
+			return code
+		}
 		var c itCase
 		if err := core.LoadReplay(o.Replay, &c); err != nil {
 			fmt.Println("replay:", err)
@@ -261,5 +264,6 @@ func C09(o *core.Options) int {
 			r.Count("worlds", 1)
 		})
 	})
+	c09CachedIterators(o, r)
 	return r.Finish()
 }
